@@ -141,19 +141,21 @@ def run(tier, seed):
         shutil.rmtree(out, ignore_errors=True)
 
     queries = [("Operiod", "bad_indices period_oracle_bad period_cases"),
+               ("Oaud", "bad_indices period_oracle_bad audition_period_cases"),
                ("Onames", "if names_bad accepted_names then [0%N] else []")]
     if t_ok:
         queries += [("Mperiod", "bad_indices (period_model_bad registered) period_cases"),
+                    ("Maud", "bad_indices (period_model_bad registered) audition_period_cases"),
                     ("Mraw", "bad_indices (raw_model_bad registered) raw_cases")]
     rc, cout, q, path = vlib.eval_cases(PID, tier, HEADER_GEN if t_ok else HEADER_NOGEN, cases_v, queries, timeout=3000)
     vals = {k: vlib.parse_nat_list(v) for k, v in q.items()}
     res.coverage.update({
-        "evaluations": summary["period"] + summary["raw"],
+        "evaluations": summary["period"] + summary["raw"] + summary["audition_period"],
         "distinct_nontrivial": summary["distinct_nontrivial"],
         "exhaustive": False,
-        "rule": "per accepted (and per documented) modality: ALL observation sequences of length 0..%d followed by end (exhaustive for that bound only), random ones of length up to %d with several densities, and raw label sequences over {t,f,end,reset,unknown}; all through the real parseAuditWhen/startOfAuditPeriod/processFsmStateChange. non-trivial = distinct (modality, trace) with at least 2 observations" % (summary["max_exhaustive_len"], summary["max_exhaustive_len"] + 200),
+        "rule": "per accepted (and per documented) modality: ALL observation sequences of length 0..%d followed by end (exhaustive for that bound only), random ones of length up to %d with several densities, and raw label sequences over {t,f,end,reset,unknown}; all through the real parseAuditWhen/startOfAuditPeriod/processFsmStateChange; plus, through the WHOLE audition (checkEvent/checkEventForAuditor/checkExpect/checkActivationPeriodEnd), plays of three activation periods each covering all traces up to length %d and random longer ones per modality, predicate over signals only or also t, last period closed by a mood change or by the end of the play. non-trivial = distinct (modality, trace) with at least 2 observations" % (summary["max_exhaustive_len"], summary["max_exhaustive_len"] + 200, summary["audition_max_exhaustive_len"]),
         "samples": summary["samples"],
-        "distribution": {"period_cases": summary["period"], "raw_cases": summary["raw"],
+        "distribution": {"period_cases": summary["period"], "raw_cases": summary["raw"], "audition_period_cases": summary["audition_period"],
                          "periods_with_disappointment": summary["periods_with_disappointment"],
                          "accepted_names": summary["accepted"]},
         "traces_validated_against_impl": summary["period"] + summary["raw"],
@@ -175,13 +177,24 @@ def run(tier, seed):
                        (" panic: " + c["Panic"]) if c["Panic"] else ""),
                       {"kind": "failing-input", "input": c, "ce_notes": ce_notes,
                        "replay": "VerifFsmRun(%r, trace + [end])" % c["Name"]})
+    for idx in vals["Oaud"]:
+        c = cases["audition_period"][idx]
+        sig = "modality-%s-misjudges-in-audition" % c["Name"].replace(" ", "-")
+        if sig in seen:
+            continue
+        seen.add(sig)
+        res.violation(sig, "through the audition (one of several activation periods of a play), modality %r misjudges the observation sequence %s: reports %s%s" %
+                      (c["Name"], "".join("t" if b else "f" for b in c["Trace"]) or "<empty>", c["Codes"],
+                       (" -- " + c["Panic"]) if c["Panic"] else ""),
+                      {"kind": "failing-input", "input": c,
+                       "replay": "cmd.VerifAudition: `al audits only while mood == 'red'`, `al expects %s: [x s] > 3`; per period: mood red, samples 5 (true) / 1 (false), mood clear" % c["Name"]})
     if vals["Onames"]:
         res.violation("modality-names", "the set of modality names accepted by `expects` is not the documented ten: %s" % cases["accepted"],
                       {"kind": "failing-input", "accepted": cases["accepted"]})
     if not res.violations and not res.known:
         for b in broken:
             res.violation(None, b, {"kind": "proof-obligation", "obligation": b, "ce_notes": ce_notes}, no_input=True)
-        for name, key in (("Mperiod", "period"), ("Mraw", "raw")):
+        for name, key in (("Mperiod", "period"), ("Mraw", "raw"), ("Maud", "audition_period")):
             if vals.get(name):
                 c = cases[key][vals[name][0]]
                 res.violation(None, "model and implementation disagree on a %s case (property oracle passes): correspondence %s broken" % (key, name),
